@@ -174,7 +174,8 @@ pub struct Rec {
 pub struct JTracker {
     pub recs: Vec<Rec>,
     /// submitted (non-child) orders by tag
-    pub by_tag: BTreeMap<u64, usize>,
+    /// submitted orders by size tag (sizes need not be unique)
+    pub by_tag: BTreeMap<u64, Vec<usize>>,
     pub by_id: BTreeMap<u64, usize>,
     pub buffered: Vec<usize>,
     pub max_id: Option<u64>,
@@ -215,7 +216,7 @@ impl JTracker {
             is_child: false,
             waited_gap_ticks: 0,
         });
-        self.by_tag.insert(spec.tag(), idx);
+        self.by_tag.entry(spec.tag()).or_default().push(idx);
         self.buffered.push(idx);
         if let Some((pre, post)) = pre {
             let sig = spec.name();
@@ -612,12 +613,10 @@ impl JTracker {
         for f in fills {
             let Some(&i) = self.by_id.get(&f.oid) else {
                 let tag = tag_of(&f.sz);
-                if let Some(&j) = self.by_tag.get(&tag) {
-                    if self.recs[j].status == St::Buffered {
-                        ctx.fail("C01", "same-tick-fill", view_name(&self.recs[j].view), format!("order tag {tag} filled by the tick that admits it: {}", fmt_fill(f)));
-                        ctx.fail("C03", "fill-unadmitted", "tick", format!("order tag {tag} filled before being admitted"));
-                        continue;
-                    }
+                if let Some(j) = self.by_tag.get(&tag).and_then(|v| v.iter().copied().find(|j| self.recs[*j].status == St::Buffered)) {
+                    ctx.fail("C01", "same-tick-fill", view_name(&self.recs[j].view), format!("order tag {tag} filled by the tick that admits it: {}", fmt_fill(f)));
+                    ctx.fail("C03", "fill-unadmitted", "tick", format!("order tag {tag} filled before being admitted"));
+                    continue;
                 }
                 ctx.fail("C03", "phantom-fill", "tick", format!("fill {} carries an id no order of this exchange has", fmt_fill(f)));
                 continue;
@@ -736,19 +735,21 @@ impl JTracker {
                     }
                 }
                 prev = Some(id);
-                if let Some(&i) = self.by_tag.get(&tag) {
-                    if self.recs[i].status == St::Buffered {
-                        rule!(
-                            ctx, "C03", "admitted-altered", view_name(a), view_eq(&self.recs[i].view, a, self.json),
-                            "admitted {} differs from submitted {}", fmt_view(a), fmt_view(&self.recs[i].view)
-                        );
-                        self.recs[i].view = a.clone();
-                        self.recs[i].status = St::Resting;
-                        self.recs[i].id = Some(id);
-                        self.by_id.insert(id, i);
-                    } else {
-                        ctx.fail("C03", "admitted-twice", "tick", format!("tag {tag} reported admitted again"));
-                    }
+                // match with one still-buffered submitted order of that size, field by field
+                let cands: Vec<usize> = self.by_tag.get(&tag).map(|v| v.iter().copied().filter(|i| self.recs[*i].status == St::Buffered).collect()).unwrap_or_default();
+                if let Some(i) = cands.iter().copied().find(|i| view_eq(&self.recs[*i].view, a, self.json)) {
+                    self.recs[i].view = a.clone();
+                    self.recs[i].status = St::Resting;
+                    self.recs[i].id = Some(id);
+                    self.by_id.insert(id, i);
+                } else if let Some(i) = cands.first().copied() {
+                    ctx.fail("C03", "admitted-altered", view_name(a), format!("admitted {} differs from submitted {}", fmt_view(a), fmt_view(&self.recs[i].view)));
+                    self.recs[i].view = a.clone();
+                    self.recs[i].status = St::Resting;
+                    self.recs[i].id = Some(id);
+                    self.by_id.insert(id, i);
+                } else if self.by_tag.contains_key(&tag) {
+                    ctx.fail("C03", "admitted-twice", "tick", format!("an order of size tag {tag} was reported admitted more often than it was submitted"));
                 }
                 self.max_id = Some(self.max_id.map_or(id, |m| m.max(id)));
             }
